@@ -21,10 +21,13 @@ Spec (SPECFAIL, reported before a tie difference because it is a concrete failin
     satisfies `goodB` (= hypothesis `Good` of the sweep theorems, `goodB_sound`): the crossing nodes are exactly the
     points (v.cc, h.cc) with  h.lo < v.cc ≤ h.hi, v.lo < h.cc < v.hi  (`crossings_sound/_complete`), no two edges of the
     planar graph cross (`planarise_no_crossing_partial`), every edge of the overlap-free graph is connected through
-    crossing nodes only (`planarise_preserves_nodes_and_connections_partial`);
-  * if the input satisfies `separatedB` (orthogonal centre-to-centre routes, distinct coordinates more than 1 apart,
-    no route through a third node's centre): no two edges of the result properly cross, and every original adjacency
-    is realised by a chain of new nodes.
+    crossing nodes only (`sweep_preserves_connections`);
+  * if the route segments the model builds from the input satisfy `goodAB` (= `GoodA`, `goodAB_sound`): the library's
+    overlap-free graph must satisfy `goodB` (`overlap_removal_good`);
+  * if the input satisfies `sepInputB` (= `SepInput ∧ NoCentreInside`, `sepInputB_sound`: orthogonal centre-to-centre
+    routes, distinct coordinates more than 1 apart, no route through a third node's centre): no two edges of the result
+    properly cross (`planarise_no_crossing_of_input`) and every original adjacency is realised by a chain of new nodes
+    (`planarise_preserves_nodes_and_connections_partial`).
 -/
 import Driver.Proto
 import AdaptaVerif.Model.Planarise
@@ -87,7 +90,7 @@ def checkPlanX (c : Case) : CaseResult := Id.run do
   if amb.fragile then stats := ("planx.ambiguous.partitionRounding", 1) :: stats
   if amb.groupTies then stats := ("planx.ambiguous.groupTies", 1) :: stats
   if amb.activeOrder then stats := ("planx.ambiguous.activeOrder", 1) :: stats
-  let sep := separatedB inp
+  let sep := sepInputB inp        -- hypothesis of the raw-input theorems (`sepInputB_sound`)
   if sep then stats := ("planx.separated", 1) :: stats
   -- 0. original nodes present (promised unconditionally)
   match inp.nodes.find? (fun n => !(qn.any (fun q => q.id == n.id && q.p == n.p))) with
@@ -163,7 +166,7 @@ def checkPlanX (c : Case) : CaseResult := Id.run do
     | some (s, t) => return { verdict := .specfail s!"planarise: edges {showPt s.1}-{showPt s.2} and {showPt t.1}-{showPt t.2} cross (planarise_no_crossing_partial)", stats := stats }
     | none => pure ()
     match (c.get "oe").toList.find? (fun l => !chainB onIds qeRaw (nat! l[0]!) (nat! l[1]!)) with
-    | some l => return { verdict := .specfail s!"planarise: overlap-free edge {l[0]!}-{l[1]!} not connected through crossing nodes (planarise_preserves_nodes_and_connections_partial)", stats := stats }
+    | some l => return { verdict := .specfail s!"planarise: overlap-free edge {l[0]!}-{l[1]!} not connected through crossing nodes (sweep_preserves_connections)", stats := stats }
     | none => pure ()
   if sep then
     let pos (i : Nat) : Option Pt := (qnR.find? (fun n => n.id == i)).map (·.p)
@@ -172,10 +175,10 @@ def checkPlanX (c : Case) : CaseResult := Id.run do
     if segs.length != iE.length then
       return { verdict := .specfail "planarise: an edge end is not a node of the planar graph", stats := stats }
     match firstProperCross segs with
-    | some (s, t) => return { verdict := .specfail s!"planarise: edges {showPt s.1}-{showPt s.2} and {showPt t.1}-{showPt t.2} cross (planarise_no_crossing)", stats := stats }
+    | some (s, t) => return { verdict := .specfail s!"planarise: edges {showPt s.1}-{showPt s.2} and {showPt t.1}-{showPt t.2} cross (planarise_no_crossing_of_input)", stats := stats }
     | none => pure ()
     match inp.edges.find? (fun e => !chainB origIds iE e.src.id e.tgt.id) with
-    | some e => return { verdict := .specfail s!"planarise: adjacency {e.src.id}-{e.tgt.id} not realised by a chain of new nodes (planarise_preserves_nodes_and_connections)", stats := stats }
+    | some e => return { verdict := .specfail s!"planarise: adjacency {e.src.id}-{e.tgt.id} not realised by a chain of new nodes (planarise_preserves_nodes_and_connections_partial)", stats := stats }
     | none => pure ()
   match tieFail with
   | some d => return { verdict := .diverge s!"planarise tie: {d}", stats := stats }
